@@ -6,6 +6,7 @@ M3  an edge cover (thorough) or a seeded sample of edge-covering walks (quick) o
 M2  seeded random histories (several writers from one goroutine, out-of-order closes, held GC lists,
     iterators with refresh, visitors) are executed and recorded;
 every recorded trace is validated by TLC against Trace_NitroMVCC (verdict = `bad` messages)."""
+import re
 import json, os, random
 import vlib, graph
 from vlib import Infra, log
@@ -77,14 +78,35 @@ def run_scripts(ctx, scripts, what, timeout=1800):
         for s in scripts:
             f.write(json.dumps(s) + "\n")
     tr = os.path.join(ctx.wd, "trace_%s.ndjson" % what)
-    p = vlib.run_harness(["mvcc", "-out", tr, "-scripts", sp, "-hangdump", os.path.join(ctx.wd, "hang.txt")], timeout=timeout)
+    p = vlib.run_harness(["mvcc", "-out", tr, "-scripts", sp, "-hangdump", os.path.join(ctx.wd, "hang.txt")], timeout=timeout, check=False)
+    if p.returncode != 0:
+        return crashed(ctx, tr, p, what)
     return tr, json.loads(p.stdout.strip().splitlines()[-1])
+
+
+def crashed(ctx, tr, p, what):
+    """The driver died (a fatal fault or panic inside one of the library's own goroutines cannot be recovered in-process).
+    A death on freed memory is behaviour of the code under test: it is recorded as a Fault event after the scenarios
+    completed so far (judged by the trace specification); anything else is an infrastructure error."""
+    from checks import writers
+    if not re.search(r"^(panic:|fatal error:|unexpected fault address)", p.stderr, re.M):
+        raise Infra("harness mvcc died without a Go panic message (rc=%s): killed from outside? %s" % (p.returncode, p.stderr[-300:]))
+    msg, kind = writers.classify_crash(p.stderr)
+    if kind == "infra":
+        raise Infra("harness mvcc crashed for a reason unrelated to freed memory:\n" + p.stderr[-3000:])
+    lines = [l for l in (open(tr).read().splitlines() if os.path.exists(tr) else []) if l.endswith("}")]
+    lines.append(json.dumps({"e": "Fault", "msg": msg}))
+    open(tr, "w").write("\n".join(lines) + "\n")
+    log("note: the mvcc driver died on freed memory (%s); judging %d recorded events + the fault" % (what, len(lines) - 1))
+    return tr, {"scenarios": sum(1 for l in lines if '"e":"Init"' in l.replace(" ", "")), "events": len(lines), "failed": []}
 
 
 def run_random(ctx, what, n, ln, profile, keys, seed_off=0, timeout=1800):
     tr = os.path.join(ctx.wd, "trace_%s.ndjson" % what)
     p = vlib.run_harness(["mvcc", "-out", tr, "-seed", vlib.seed() * 1000 + seed_off, "-n", n, "-len", ln, "-profile", profile,
-                          "-keys", keys, "-hangdump", os.path.join(ctx.wd, "hang.txt")], timeout=timeout)
+                          "-keys", keys, "-hangdump", os.path.join(ctx.wd, "hang.txt")], timeout=timeout, check=False)
+    if p.returncode != 0:
+        return crashed(ctx, tr, p, what)
     return tr, json.loads(p.stdout.strip().splitlines()[-1])
 
 
